@@ -65,6 +65,10 @@ pub struct Solver {
     pub timeout_ms: u64,
     pub log: Option<std::fs::File>,
     script: String,
+    /// anything sent since the last (re)start?  An untouched solver need not be restarted.
+    dirty: bool,
+    /// the process misbehaved (error / watchdog): the next reset must respawn it
+    broken: bool,
 }
 
 fn spawn(kind: Kind, timeout_ms: u64) -> (Child, ChildStdin, Receiver<String>) {
@@ -137,6 +141,8 @@ impl Solver {
             stats: Stats::default(),
             timeout_ms,
             script: String::new(),
+            dirty: false,
+            broken: false,
             log: std::env::var("SYMX_SMT_LOG").ok().and_then(|p| std::fs::OpenOptions::new().create(true).append(true).open(p).ok()),
         };
         s.preamble();
@@ -161,13 +167,39 @@ impl Solver {
     }
 
     /// Forget everything (new arena).
+    /// Forget everything (new arena), cheaply when possible: an untouched solver is kept as it
+    /// is; a healthy z3 is cleared with `(reset)`; otherwise the process is respawned.
     pub fn reset(&mut self) {
+        if !self.dirty && !self.broken {
+            return;
+        }
+        if !self.broken && matches!(self.kind, Kind::Z3 | Kind::Portfolio) {
+            // drain nothing: every query was answered; (reset) clears declarations and options
+            self.dirty = false;
+            self.send_pipe("(reset)\n");
+            self.defined_terms.clear();
+            self.defined_atoms.clear();
+            self.declared_inputs.clear();
+            self.declared_vars.clear();
+            self.declared_frees.clear();
+            self.script.clear();
+            self.preamble();
+            self.dirty = false;
+            return;
+        }
+        self.hard_reset();
+    }
+
+    /// Kill and respawn the solver process.
+    pub fn hard_reset(&mut self) {
         let _ = self.child.kill();
         let _ = self.child.wait();
         let (child, stdin, stdout) = spawn(self.kind, self.timeout_ms);
         self.child = child;
         self.stdin = stdin;
         self.stdout = stdout;
+        self.broken = false;
+        self.dirty = false;
         self.defined_terms.clear();
         self.defined_atoms.clear();
         self.declared_inputs.clear();
@@ -176,9 +208,11 @@ impl Solver {
         self.stats.restarts += 1;
         self.script.clear();
         self.preamble();
+        self.dirty = false;
     }
 
     fn send(&mut self, s: &str) {
+        self.dirty = true;
         if let Some(l) = &mut self.log {
             let _ = l.write_all(s.as_bytes());
         }
@@ -343,8 +377,9 @@ impl Solver {
             self.stats.unknown += 1;
             let r = resp.clone();
             if r.starts_with("(error") {
-                // solver state is suspect: restart lazily by marking everything undefined
-                self.reset();
+                // solver state is suspect (or the watchdog fired): respawn the process
+                self.broken = true;
+                self.hard_reset();
             }
             Answer::Unknown(r)
         };
